@@ -51,6 +51,9 @@ static std::set<int> p_refused_fds;
 // virtual sleeping (timer cases): when set and nothing is ready, the timeout the poller passed is handed to this
 // hook (microseconds, negative = forever) instead of being slept for real
 static void (*p_vsleep)(long long us) = NULL;
+// the next select() / epoll_wait() fails with EINTR (a handled signal arrived during the wait): the kernel leaves
+// the fd sets / the event array as they were passed in
+static bool p_intr_next = false;
 
 static int p_fd_of(void *ptr) {
   std::map<void*, int>::const_iterator it = p_ptr_fd.find(ptr);
@@ -244,6 +247,12 @@ class p_run {
         p_cur_ep = m_ep; p_desc_order = (o.k == 'q');
         m_poller->Poll(&m_tm, ola::TimeInterval(0, 0));
         break;
+      case 'I':     // one Poll whose wait is interrupted
+        p_cur_ep = m_ep; p_desc_order = false;
+        p_intr_next = true;
+        m_poller->Poll(&m_tm, ola::TimeInterval(0, 0));
+        p_intr_next = false;
+        break;
     }
     m_opix++;
   }
@@ -350,6 +359,7 @@ string handle(const string &payload) {
 
 extern "C" int __real_epoll_wait(int epfd, struct epoll_event *events, int maxevents, int timeout);
 extern "C" int __wrap_epoll_wait(int epfd, struct epoll_event *events, int maxevents, int timeout) {
+  if (c16p::p_intr_next) { c16p::p_intr_next = false; errno = EINTR; return -1; }
   if (c16p::p_vsleep) {
     int n0 = __real_epoll_wait(epfd, events, maxevents, 0);
     if (n0 == 0) c16p::p_vsleep(timeout < 0 ? -1 : static_cast<long long>(timeout) * 1000);
@@ -370,6 +380,7 @@ extern "C" int __wrap_epoll_wait(int epfd, struct epoll_event *events, int maxev
 }
 extern "C" int __real_select(int nfds, fd_set *r, fd_set *w, fd_set *x, struct timeval *tv);
 extern "C" int __wrap_select(int nfds, fd_set *r, fd_set *w, fd_set *x, struct timeval *tv) {
+  if (c16p::p_intr_next) { c16p::p_intr_next = false; errno = EINTR; return -1; }
   if (c16p::p_vsleep && tv) {
     if (tv->tv_sec < 0 || tv->tv_usec < 0) { errno = EINVAL; return -1; }   // what the kernel answers
     struct timeval zero = {0, 0};
